@@ -13,6 +13,9 @@ impl StateMachine<'_> {
             return Ok(false);
         }
         self.painter.paint_buffered_minus_and_plus_lines();
+        // Lines of the previous file section must reach the output before anything belonging
+        // to this section is written directly to the writer (e.g. a mode-change-only header).
+        self.painter.emit()?;
         self.state =
             if self.line.starts_with("diff --cc ") || self.line.starts_with("diff --combined ") {
                 // We will determine the number of parents when we see the hunk header.
